@@ -757,6 +757,29 @@ func c11Programs(thorough bool) [][]c11Node {
 				[]c11Node{{Kind: "group", Path: "/{p}", NH: 2, Children: []c11Node{{Kind: "group", Path: "/g", NH: 0, Children: []c11Node{lf}}}}})
 		}
 	}
+	// AutoHead switched several times in a row (the switch is a setting, not a counter): every sequence of up
+	// to four switches, then a Get and a Combo, flat and inside a group
+	{
+		var seqs [][]c11Node
+		var rec func(pre []c11Node)
+		rec = func(pre []c11Node) {
+			if len(pre) >= 2 {
+				seqs = append(seqs, append([]c11Node{}, pre...))
+			}
+			if len(pre) == 4 {
+				return
+			}
+			for _, k := range []string{"autohead-on", "autohead-off"} {
+				rec(append(pre, c11Node{Kind: k}))
+			}
+		}
+		rec(nil)
+		for _, sq := range seqs {
+			tail := []c11Node{{Kind: "get", Path: "/a", NH: 1}, {Kind: "combo", Path: "/v", NH: 1}}
+			progs = append(progs, append(append([]c11Node{}, sq...), tail...),
+				[]c11Node{{Kind: "group", Path: "/g", NH: 1, Children: append(append([]c11Node{}, sq...), tail...)}, {Kind: "get", Path: "/{x}", NH: 1}})
+		}
+	}
 	// Routes with the wild card as its method list
 	for _, pth := range []string{"/a", "/{x}"} {
 		for _, nh := range []int{1, 2} {
